@@ -1316,7 +1316,8 @@ def _ser_object(self, t: dict, v):
     if td:
         if v[0] not in ("tdict", "dict"):
             raise Mismatch
-        vals = v[1] if v[0] == "tdict" else {kc[1]: vc for kc, vc in v[1]}
+        # a plain dict served by a TypedDict alternative: only its string keys can be properties
+        vals = v[1] if v[0] == "tdict" else {kc[1]: vc for kc, vc in v[1] if kc[0] == "str"}
     else:
         if v[0] != "obj" or v[1] != cd["name"]:
             raise Mismatch
